@@ -76,7 +76,8 @@ def semiTK : TK := (T.semiColon, bs ";")
 theorem constructorFailsOnField (hc : Ctx N tx it) (its : Iter) (hsuf0 : its <:+ it) (k0 k1 : TK) (ks : List TK) (pos : Pos)
     (fuel : Nat) (hf : 3 ≤ fuel) (hm : strip its = k0 :: k1 :: ks) (hk0 : k0.1 = T.lcIdent ∨ k0.1 = T.ucIdent)
     (hk1 : k1.1 = T.questionMark ∨ k1.1 = T.colon) :
-    ∃ e rest v, parseUnionConstructor tx fuel its pos = .ok ({ start := true, err := some e }, rest, v) := by
+    ∃ e rest v, parseUnionConstructor tx fuel its pos = .ok ({ start := true, err := some e }, rest, v) ∧
+      ∃ t, front rest = .ok t := by
   obtain ⟨hd, r, e, hnw, htk, hr, hsuf⟩ := skipWS_strip hm
   have hty : hd.ty = k0.1 := by rw [← htk]; rfl
   have hchk : variantStart.contains hd.ty = true := by rw [hty]; rcases hk0 with h | h <;> rw [h] <;> decide
@@ -92,7 +93,7 @@ theorem constructorFailsOnField (hc : Ctx N tx it) (its : Iter) (hsuf0 : its <:+
   have hty4 : hd4.ty = k1.1 := by rw [← htk4]; rfl
   have hcq : [T.colon, T.questionMark].contains hd4.ty = true := by rw [hty4]; rcases hk1 with h | h <;> rw [h] <;> decide
   obtain ⟨fz, hfz⟩ : ∃ fz, fuel = fz + 1 := ⟨fuel - 1, by omega⟩
-  refine ⟨errTok hd4 pos, hd4 :: r4, Variant.mk hd.val (.alias default) [], ?_⟩
+  refine ⟨errTok hd4 pos, hd4 :: r4, Variant.mk hd.val (.alias default) [], ?_, hd4, rfl⟩
   unfold parseUnionConstructor parseFields
   simp only [e, Res.ok_bind, checkAny_nw hnw, show [T.ucIdent, T.lcIdent, T.tl2typeSign] = variantStart from rfl, hchk,
     Bool.not_true, Bool.false_eq_true, ↓reduceIte, skipWS_nw hnw, popFront_cons, ht1, checkAny, e2, front_cons,
